@@ -33,6 +33,11 @@ type Sched struct {
 	Preempts []int  `json:"preempts,omitempty"`
 	Choices  []int  `json:"choices,omitempty"`
 	Selects  []int  `json:"selects,omitempty"` // pinned choices among ready select cases
+	// PreemptFrac places preemptions relative to the length of the run: the runner first executes
+	// the plan without preemptions to count its steps N, then preempts at frac*N (two-pass
+	// placement; indices drawn blind mostly fall outside short runs). Replaced by Preempts
+	// before the plan is journalled.
+	PreemptFrac []float64 `json:"preempt_frac,omitempty"`
 }
 
 // Plan is one run.
